@@ -84,7 +84,8 @@ def _confined(fields, facts):
     for s in sides:
         ok |= {s, "i" + s}
     if facts.get("bareparen_closed") and facts.get("allowed"):
-        ok.add("raise")
+        # '(NH4)2SO4(s)' is taken for the inactive term 'NH4)2SO4(s', which the allowed list rejects
+        ok |= {"raise", "rejected"}
     if facts.get("unknown_bareparen"):
         ok.add("missing-raise")
     return bool(sides) and bool(fields) and set(fields) <= ok
@@ -221,7 +222,7 @@ def _judge_traces(ctx, seqs, labels):
             continue
         traces.append(tr)
         keep.append((evs, obs, facts, label))
-    verdicts = ctx.validate_traces("ReactionTextTrace", "ReactionTextTrace.cfg", traces, chunk=10000)
+    verdicts = ctx.validate_traces("ReactionTextTrace", "ReactionTextTrace.cfg", traces, chunk=14000)
     for tr, (evs, obs, facts, label), (v, pos, clause) in zip(traces, keep, verdicts):
         txt = "\n".join(obs["doc"])
         ctx.ran(txt, nontrivial=_nontrivial_events(evs))
@@ -236,7 +237,7 @@ def _judge_traces(ctx, seqs, labels):
         fields = ["raise"] if clause == "unexpected-raise" else [field]
         what = "copy" if clause.startswith("copy") else ("roundtrip" if clause.startswith("rt-") else "read")
         if what == "roundtrip":
-            facts = dict(facts, bareparen=facts["rt_bareparen"])
+            facts = dict(facts, bareparen=facts["rt_bareparen"], bareparen_closed=facts["rt_bareparen_closed"])
         ctx.violation(_key(_fn(obs["klass"], len(obs["doc"]) > 1), what, fields, facts),
                       {"direction": "code->spec", "trace": tr, "text": txt, "source": label,
                        "observed": {k: obs[k] for k in ("raised", "exc", "lines", "copy_eq", "rts")},
